@@ -368,7 +368,7 @@ theorem invS_listen (s : Server) (sid id : Nat) (kinds : List Kind) (uris : List
   unfold listen
   split
   · rename_i hguard
-    obtain ⟨hm, hok, hnd, _⟩ := hguard
+    obtain ⟨hm, hok, hnd⟩ := hguard
     have ok := listenOk_spec hok
     obtain ⟨a, b, c, d, e, f, g, i, j⟩ := h
     generalize hak : kinds.filter (gateListen s) = ak
@@ -843,8 +843,20 @@ theorem invS_step (s : Server) (l : Label) (h : InvS s) : InvS (step s l).1 := b
     · exact h
     · exact (invS_setK k (fun st => { st with
         pending := st.pending - 1, tracked := none,
-        orphans := (match st.tracked with | some (some d) => d :: st.orphans | _ => st.orphans) }) (fun _ => rfl) h).frame
+        orphans := (match st.tracked with | some (some d) => d :: st.orphans | _ => st.orphans),
+        inflight := st.inflight ++ sendList s k }) (fun _ => rfl) h).frame
         (by rfl) (by intro t; rfl) (by rfl) (by rfl) (by rfl)
+  | deliver k i =>
+    simp only [step, deliver]
+    split
+    · exact h
+    · exact invS_setK k (fun st => { st with inflight := st.inflight.eraseIdx i }) (fun _ => rfl) h
+  | listenRefused sid id kinds uris n =>
+    simp only [step, listenRefused]
+    split
+    · exact invS_listenEnd _ sid id (invS_listen s sid id kinds (uris.take n) h)
+    · exact h
+  | updatedNamed u v => exact h
   | bind sid => exact invS_bind s sid h
   | hello sid m => exact invS_hello s sid m h
   | listen sid id kinds uris => exact invS_listen s sid id kinds uris h
@@ -883,19 +895,30 @@ theorem outputs_from_reach {cap : Kind → Cap} {s : Server} (h : Reach cap s) (
 
 /-- No label changes the capability switches. -/
 theorem step_cap (s : Server) (l : Label) : (step s l).1.cap = s.cap := by
-  cases l <;> simp only [step]
-  · unfold change; split; rfl; split; rfl; unfold notifyChange; split; unfold arm; split <;> rfl; rfl
-  · unfold fireTracked; split; split <;> rfl; rfl
-  · unfold fireOrphan; split; split <;> rfl; rfl
-  · unfold cbrun; split <;> rfl
-  · unfold bind; split <;> rfl
-  · unfold hello; split <;> rfl
-  · unfold listen; split <;> rfl
-  · unfold listenAck; split; rfl; split; rfl; split <;> rfl
-  · unfold listenEnd; split <;> rfl
-  · unfold subscribe; split <;> rfl
-  · unfold unsubscribe; split <;> rfl
-  · rfl
+  cases l with
+  | change f e =>
+    simp only [step]; unfold change; split; rfl; split; rfl; unfold notifyChange; split; unfold arm; split <;> rfl; rfl
+  | tick d => rfl
+  | fireTracked k => simp only [step]; unfold fireTracked; split; split <;> rfl; rfl
+  | fireOrphan k i => simp only [step]; unfold fireOrphan; split; split <;> rfl; rfl
+  | cbrun k => simp only [step]; unfold cbrun; split <;> rfl
+  | deliver k i => simp only [step]; unfold deliver; split <;> rfl
+  | bind sid => simp only [step]; unfold bind; split <;> rfl
+  | hello sid m => simp only [step]; unfold hello; split <;> rfl
+  | listen a b c d => simp only [step]; unfold listen; split <;> rfl
+  | listenRefused a b c d n =>
+    simp only [step]; unfold listenRefused; split
+    · unfold listenEnd; split
+      · unfold listen; split <;> rfl
+      · unfold listen; split <;> rfl
+    · rfl
+  | listenAck a b => simp only [step]; unfold listenAck; split; rfl; split; rfl; split <;> rfl
+  | listenEnd a b => simp only [step]; unfold listenEnd; split <;> rfl
+  | subscribe a b c => simp only [step]; unfold subscribe; split <;> rfl
+  | unsubscribe a b => simp only [step]; unfold unsubscribe; split <;> rfl
+  | close a => rfl
+  | updated u => rfl
+  | updatedNamed u v => rfl
 
 theorem reach_cap {cap : Kind → Cap} {s : Server} (h : Reach cap s) : s.cap = cap := by
   induction h with
@@ -911,6 +934,32 @@ def InvA (s : Server) : Prop :=
 theorem InvA.frame {s s' : Server} (h : InvA s) (h1 : s'.acked = s.acked) (h2 : s'.listens = s.listens) :
     InvA s' := by
   intro p hp; rw [h1] at hp; rw [h2]; exact h p hp
+
+theorem invA_listen (s : Server) (sid id : Nat) (kinds : List Kind) (uris : List Nat) (h : InvA s) :
+    InvA (listen s sid id kinds uris) := by
+  simp only [listen]
+  split
+  · intro p hp
+    obtain ⟨l0, hl0, h1⟩ := h p hp
+    exact ⟨l0, by simp; exact Or.inr hl0, h1⟩
+  · exact h
+
+theorem invA_listenEnd (s : Server) (sid id : Nat) (h : InvA s) : InvA (listenEnd s sid id) := by
+  simp only [listenEnd]
+  split
+  · exact h
+  · intro p hp
+    simp at hp
+    obtain ⟨l0, hl0, h1, h2⟩ := h p hp.1
+    refine ⟨l0, ?_, h1, h2⟩
+    simp
+    refine ⟨hl0, ?_⟩
+    by_cases e1 : l0.sid = sid
+    · right; rw [h2]
+      rcases hp.2 with h3 | h3
+      · exact absurd (by rw [← h1]; exact e1) h3
+      · exact h3
+    · exact Or.inl e1
 
 theorem invA_step (s : Server) (l : Label) (h : InvA s) : InvA (step s l).1 := by
   cases l with
@@ -928,12 +977,14 @@ theorem invA_step (s : Server) (l : Label) (h : InvA s) : InvA (step s l).1 := b
   | subscribe a b c => refine h.frame ?_ ?_ <;> · simp only [step, subscribe]; split <;> rfl
   | unsubscribe a b => refine h.frame ?_ ?_ <;> · simp only [step, unsubscribe]; split <;> rfl
   | updated u => exact h
-  | listen sid id kinds uris =>
-    simp only [step, listen]
+  | updatedNamed u v => exact h
+  | deliver k i =>
+    refine h.frame ?_ ?_ <;> · simp only [step, deliver]; split <;> rfl
+  | listen sid id kinds uris => exact invA_listen s sid id kinds uris h
+  | listenRefused sid id kinds uris n =>
+    simp only [step, listenRefused]
     split
-    · intro p hp
-      obtain ⟨l0, hl0, h1⟩ := h p hp
-      exact ⟨l0, by simp; exact Or.inr hl0, h1⟩
+    · exact invA_listenEnd _ sid id (invA_listen s sid id kinds (uris.take n) h)
     · exact h
   | listenAck sid id =>
     simp only [step, listenAck]
@@ -960,22 +1011,7 @@ theorem invA_step (s : Server) (l : Label) (h : InvA s) : InvA (step s l).1 := b
           rcases hp with hp | hp
           · exact h p hp
           · exact ⟨l, hl, by rw [hp]; exact hsid, by rw [hp]; exact hid⟩
-  | listenEnd sid id =>
-    simp only [step, listenEnd]
-    split
-    · exact h
-    · intro p hp
-      simp at hp
-      obtain ⟨l0, hl0, h1, h2⟩ := h p hp.1
-      refine ⟨l0, ?_, h1, h2⟩
-      simp
-      refine ⟨hl0, ?_⟩
-      by_cases e1 : l0.sid = sid
-      · right; rw [h2]
-        rcases hp.2 with h3 | h3
-        · exact absurd (by rw [← h1]; exact e1) h3
-        · exact h3
-      · exact Or.inl e1
+  | listenEnd sid id => exact invA_listenEnd s sid id h
   | close sid =>
     simp only [step, close]
     intro p hp
